@@ -14,7 +14,7 @@ import (
 func init() {
 	register(&Property{
 		ID:        "C15",
-		Technique: "must-lockset (Pool.mu), typestate over Take/Put/Close (paired list operations, timer ownership, map registration), guard dominance in the list primitives and the expiry callback",
+		Technique: "must-lockset (Pool.mu), typestate over Take/Put/Close (paired list operations, timer ownership, map registration), guard dominance in the list primitives and the expiry callback; tested-then-dropped error (contradiction) check and interprocedural lock-pairing check over the packages the property is anchored in; sibling cross-check of the two list primitives (fields maintained, neighbour each link is set from)",
 		Explanation: "Structural invariants the pool's bound and ownership claims rest on: " +
 			"(R1) the pool's map, order list, per-key lists, list links and expiry timers are touched only under Pool.mu; " +
 			"(R2) unlinking is idempotent: every mutation in list.removeEntry is behind the entry's linked flag, which append sets and remove clears; " +
@@ -236,6 +236,55 @@ func c15r2(c *an.Ctx) {
 			}
 		})
 		c.Check(len(wrong) == 0, an.ShortFunc(x.f)+" | each link is set from the right neighbour", c.P.Pos(x.f.Pos()), "", "a link store takes its value from the wrong field ("+strings.Join(wrong, "; ")+"): with three or more entries the list loses or repeats entries while count still includes them")
+	}
+	// the per-key list is dropped from the map only when it is empty, and Pool.removeEntry unlinks whenever the key
+	// has a list
+	nDel := 0
+	for _, f := range must(c.P.SourceFuncs("drpcpool")) {
+		for _, ff := range an.WithAnon(f) {
+			an.Instrs(ff, func(in ssa.Instruction) {
+				call, ok := in.(*ssa.Call)
+				if !ok {
+					return
+				}
+				b, isB := call.Common().Value.(*ssa.Builtin)
+				if !isB || b.Name() != "delete" || !isLoadOfField(an.Unwrap(call.Common().Args[0]), pa.entries) {
+					return
+				}
+				nDel++
+				empty := false
+				for _, g := range an.GuardsOf(in.Block()) {
+					if cmp, ok := an.CmpOf(g); ok && cmp.Op == token.EQL {
+						if k, isK := an.ConstInt(cmp.Y); isK && k == 0 && isLoadOfField(an.Unwrap(cmp.X), pa.count) {
+							empty = true
+						}
+					}
+					// ... or its head is nil (a loop that unlinked entries until none was left)
+					if x, trueNonNil, isTest := nilTestOf(g.Cond); isTest && g.True != trueNonNil && isLoadOfField(an.Unwrap(x), pa.head) {
+						empty = true
+					}
+				}
+				c.Check(empty, an.ShortFunc(f)+" | a key's list is deleted from the map only when its count is 0", c.At(in), "", "a per-key list that still has entries is dropped from the map: those connections stay in the global order but can no longer be found, unlinked or counted per key (the eviction loop then dereferences a missing list)")
+			})
+		}
+	}
+	c.Floor("delete(p.entries, key) sites", 1, nDel)
+	if prm := c.Fn("drpcpool", "(*Pool).removeEntry"); prm != nil {
+		okGuard, nRm := true, 0
+		an.Instrs(prm, func(in ssa.Instruction) {
+			ci, ok := in.(ssa.CallInstruction)
+			if !ok || !(an.IsCallTo(ci.Common(), pa.lremove)) {
+				return
+			}
+			nRm++
+			for _, g := range an.GuardsOf(in.Block()) {
+				if x, trueNonNil, isTest := nilTestOf(g.Cond); isTest && g.True != trueNonNil {
+					_ = x
+					okGuard = false // unlinking only where something is known to be nil
+				}
+			}
+		})
+		c.Check(okGuard && nRm >= 2, "(*Pool).removeEntry | unlinks the entry from its key's list and from the global order whenever the key has a list", c.P.Pos(prm.Pos()), "", "the expiry callback's removal is skipped for keys that have a list (or runs on a nil list): an expired, closed entry stays linked and counted")
 	}
 	// count updated exactly once in each
 	for _, f := range []*ssa.Function{rm, ap} {
